@@ -25,6 +25,7 @@ const PREFIXES: &[&str] = &[
     "begin",
     "begin_failed",
     "copy_in_started",
+    "set_guc_then_copy_in_started",
     "begin_copy_in_started",
     "begin_batch_no_sync",
     "begin_set_then_commit_later",
@@ -73,6 +74,9 @@ struct Case {
     /// cleanup_server_connections (default true). With false the user opted out of the session-state
     /// reset, but an open transaction, a COPY in progress or an unread reply must still never be handed on
     cleanup: bool,
+    /// the next client announces the same application_name as the previous one: the pooler has no
+    /// parameter to sync, the next client's own first statement is the first thing the server sees
+    same_app: bool,
 }
 
 impl Case {
@@ -87,7 +91,7 @@ impl Case {
             },
             if self.cache { "on" } else { "off" },
             self.mode,
-            if self.cleanup { "" } else { "|cleanup=off" }
+            format!("{}{}", if self.cleanup { "" } else { "|cleanup=off" }, if self.same_app { "|same_app" } else { "" })
         )
     }
 }
@@ -181,7 +185,12 @@ fn run_case(case: &Case, rep: &Report) -> Result<(), String> {
             ok(a.query(&format!("BEGIN {}", t("")), 5000), "begin")?;
             ok(a.query(&format!("SELECT 1 {}", t("err=pre")), 5000), "failing stmt")?;
         }
-        "copy_in_started" | "begin_copy_in_started" => {
+        "copy_in_started" | "begin_copy_in_started" | "set_guc_then_copy_in_started" => {
+            if case.prefix.starts_with("set_guc") {
+                // (keeps its meaning in session mode only: in transaction mode the server goes back
+                // to the pool, and is reset, right after the SET)
+                ok(a.query(&format!("SET work_mem TO '64MB' {}", t("")), 5000), "set")?;
+            }
             if case.prefix.starts_with("begin") {
                 ok(a.query(&format!("BEGIN {}", t("")), 5000), "begin")?;
             }
@@ -365,7 +374,7 @@ fn run_case(case: &Case, rep: &Report) -> Result<(), String> {
     sleep_ms(if case.stop == "commit_idle" { 20 } else { 120 });
     // ---- probe with fresh client B
     let n0 = cell.log.len();
-    let mut b = match connect(&cell, "B") {
+    let mut b = match connect(&cell, if case.same_app { "A" } else { "B" }) {
         Ok(b) => b,
         Err(e) => {
             if !cell.pg().alive() {
@@ -559,8 +568,13 @@ pub fn run(tier: &str) -> i32 {
                         mode: mode.to_string(),
                         offset: None,
                         cleanup: true,
+                        same_app: false,
                     };
                     if applicable(&c) {
+                        // COPY prefixes also with a next client of the same application_name
+                        if !cache && p.contains("copy") {
+                            cases.push(Case { same_app: true, ..c.clone() });
+                        }
                         // transaction / COPY prefixes also with cleanup_server_connections = false
                         if !cache && mode == "transaction" && (in_txn_prefix(p) || p.contains("copy")) {
                             cases.push(Case { cleanup: false, ..c.clone() });
@@ -583,6 +597,7 @@ pub fn run(tier: &str) -> i32 {
                         mode: mode.into(),
                         offset: Some(off),
                         cleanup: true,
+                        same_app: false,
                     });
                 }
             }
